@@ -77,7 +77,14 @@ def own_site(eng, site, anchor_qualname):
     if site.fn == anchor_qualname:
         return True
     fi = eng.prog.funcs.get(site.fn)
+    # a nested function / lambda belongs to the function that contains it
+    while fi is not None and fi.parent is not None:
+        fi = fi.parent
+    if fi is not None and fi.qualname == anchor_qualname:
+        return True
     afi = eng.prog.funcs.get(anchor_qualname)
+    if fi is not None:
+        site = type(site)(site[0], site[1], site[2], fi.qualname, site[4])
     return fi is not None and afi is not None and fi.mod.short == afi.mod.short and site.fn in eng.private_helpers(fi.mod.short)
 
 
